@@ -379,6 +379,15 @@ def world_case(case):
     b = w.add('b', [cfg['addr_b']], cb)
     eps = {'a': a, 'b': b}
     w.acquire(a, **gen.acquire_args(cfg, 0))
+    if case.get('early'):
+        # somebody sends requests of later exchanges in the clear to the IKE_SA that has no keys yet (it answers, or not; what
+        # it emits must still obey the rule)
+        import struct as _st
+        sa0 = a.sas[0] if a.sas else None
+        if sa0 is not None:
+            for exch, mid, chain_first, chain in case['early']:
+                data = bytes(sa0.my_spi) + bytes(8) + bytes([chain_first, 0x20, exch, 0x00]) + _st.pack('>LL', mid, 28 + len(bytes.fromhex(chain))) + bytes.fromhex(chain)
+                a.step(dgram=(a.addrs[0], b.addrs[0], data))
     w.run_until_quiet()
     for kind, side, k in case['ops']:
         ep = eps[side]
@@ -405,6 +414,17 @@ def world_case(case):
     for sig, text in ob.problems:
         if sig in ('protect-undecodable', 'hdr-length'):
             fails.append(Failure('emitted-' + sig, text))
+    # the rule read off the bytes of everything that was emitted (also what the observer could not attribute to a session)
+    for d in w.sent_log:
+        x = d.data
+        if len(x) < 28 or x[18] == 34:
+            continue
+        if x[16] == 0 and len(x) == 28:
+            continue                                    # no payload at all
+        sk_ok = x[16] == 46 and len(x) >= 32 and int.from_bytes(x[30:32], 'big') == len(x) - 28
+        if not sk_ok and not any(f.sig == 'clear-after-init:bytes' for f in fails):
+            fails.append(Failure('clear-after-init:bytes', f'a message of exchange type {x[18]} was emitted whose first payload is '
+                                                           f'{x[16]} / whose SK payload is not the only one ({len(x)} octets)'))
     n = sum(1 for d in w.sent_log if d.data[18] != 34)
     return fails, n
 
@@ -417,7 +437,10 @@ def w_world(task):
         'cfg': gen.configs(max_protect=2),
         'ops': st.lists(st.tuples(st.sampled_from(['new_child', 'rekey_child', 'hard_expire', 'rekey_ike', 'dpd',
                                                    'delete_ike']), st.sampled_from(['a', 'b']), st.integers(0, 5)),
-                        max_size=4)})
+                        max_size=4),
+        'early': st.lists(st.tuples(st.sampled_from([35, 36, 37]), st.sampled_from([0, 1]), st.sampled_from([0, 41]),
+                                    st.sampled_from(['', '0000000800000007'])).filter(lambda t: (t[2] == 0) == (t[3] == '')),
+                          max_size=2)})
 
     def body(case, stats):
         fails, n_ = world_case(case)
